@@ -3,7 +3,7 @@
    [Panic] is a value of the models exactly where the Go run time panics (index / slice bounds,
    make with a negative length, failed single-value type assertion, documented panics of the
    standard library); [Fixed] = the current tree, [Original] = the tree before the fix: commits. *)
-From Kit.C07 Require Import Spec Model Check Proofs Proofs_Sym Proofs_Iso Proofs_Dispatch.
+From Kit.C07 Require Import Spec Model Check Proofs Proofs_Sym Proofs_Iso Proofs_Dispatch Proofs_Header Proofs_Keys.
 From Kit.C04 Require Zone Parse Proofs_Parse.
 From Coq Require Import ZArith NArith List String.
 Import ListNotations.
@@ -152,6 +152,30 @@ Print Assumptions C07_cipher_validate_no_panic.
 Theorem C07_keyalg_validate_no_panic : forall a, keyalg_validate a <> Panic.
 Proof. exact keyalg_validate_no_panic. Qed.
 Print Assumptions C07_keyalg_validate_no_panic.
+
+(* enc/v1 readHeader over an ARBITRARY io.Reader (a script: per Read call the bytes handed over and
+   the error returned with them - nil, io.EOF or a failure, with or without data; zero-length
+   reads; any chunking; any bytes): the loop finishes within the stated fuel (three more than the
+   number of script items) ... *)
+Theorem C07_read_header_terminates : forall s, read_header s <> None.
+Proof. exact read_header_terminates. Qed.
+Print Assumptions C07_read_header_terminates.
+
+(* ... and no index, slice or make of the header scan leaves its bounds (the buffer of
+   SegmentSize+17 bytes, lastNewline <= i, n <= SegmentSize). *)
+Theorem C07_read_header_no_panic : forall s, read_header s <> Some Panic.
+Proof. exact read_header_no_panic. Qed.
+Print Assumptions C07_read_header_no_panic.
+
+(* crypto.ParseKey: EVERY byte string and EVERY content type; the two base64 decoders may answer
+   anything within the documented contract of encoding/base64 (at most DecodedLen(len(src)) bytes
+   written): raw[0], raw[0:5], the make and dst[:n] stay inside their bounds. *)
+Theorem C07_parse_key_no_panic : forall raw ct std url,
+  (forall n, std = Some n -> 0 <= n <= decoded_len (len (trim_right raw))) ->
+  (forall n, url = Some n -> 0 <= n <= decoded_len (len (trim_right raw))) ->
+  parse_key raw ct std url <> Panic.
+Proof. exact parse_key_no_panic. Qed.
+Print Assumptions C07_parse_key_no_panic.
 
 (* cron: NewParser(o).Parse(spec) on the current tree, for EVERY option set without the
    documented two-optionals misuse, EVERY spec, whatever time.LoadLocation / time.ParseDuration
